@@ -85,6 +85,23 @@ func c17Variants(dev glow.PublicKey) map[string]func(cur string) c17Variant {
 		"Lmix": list(func(c string) []server.AuthorizedServer {
 			return []server.AuthorizedServer{srv("S2", false, 7000, c), srv("S3", false, 7000, "G2")}
 		}),
+		// the same key twice in one reply: a genuine entry followed by a forged ban (unsigned, other location) ...
+		"Ldupforged": list(func(c string) []server.AuthorizedServer {
+			f := srv("S1", true, 7300, c)
+			f.Location = "203.0.113.66"
+			f.GCAAuthorization = glow.Signature{}
+			return []server.AuthorizedServer{srv("S1", false, 7000, c), f}
+		}),
+		// ... and followed by a genuine ban (must take effect)
+		"Ldupgenuine": list(func(c string) []server.AuthorizedServer {
+			return []server.AuthorizedServer{srv("S1", false, 7000, c), srv("S1", true, 7000, c)}
+		}),
+		// our own contacted server listed twice, second time forged as banned
+		"Ldup0forged": list(func(c string) []server.AuthorizedServer {
+			f := srv("S0", true, 7000, c)
+			f.GCAAuthorization[3] ^= 1
+			return []server.AuthorizedServer{srv("S0", false, 7000, c), f}
+		}),
 		"M":      mig(dev, "cur", "G3"),
 		"Mouter": mig(dev, "G2", "G3"),
 		"Minner": mig(dev, "cur", "cur-inner"),
@@ -292,7 +309,7 @@ func init() {
 		}
 		st1 := bfsPool(run, p, "ops", arg, depth, 0, func([]string) []string { return sops })
 		// client side
-		cops := []string{"L1", "L12", "L1b", "L1p", "L0b", "Lbad", "Lmix", "M", "Mouter", "Minner", "Mother", "restart"}
+		cops := []string{"L1", "L12", "L1b", "L1p", "L0b", "Lbad", "Lmix", "Ldupforged", "Ldupgenuine", "Ldup0forged", "M", "Mouter", "Minner", "Mother", "restart"}
 		cdepth := 4
 		if tier == "thorough" {
 			cdepth = 5
